@@ -238,6 +238,30 @@ def scen_symmetry(env, cfg):
               env.And([env.And(env.le(ys[c + i] - ys[c - i], tol, 10), env.le(ys[c - i] - ys[c + i], tol, 10)) for i in range(1, c)]))
 
 
+def scen_history(env, cfg):
+    """the design follows the sampling rate now in gv: the same filter call repeated after gv is reconfigured."""
+    D, T = env.lib.devices, env.lib.typing
+    kind = cfg['kind']
+    L = 30
+    BW = env.num(2e9)
+    import numpy
+    import scipy.signal as sg
+    f = lambda v: float(v.n) if hasattr(v, 'n') else float(v)
+    xs = [v + (1 if i == 7 else env.const('0.25')) for i, v in enumerate(env.reals('s', L, -3, 3))]
+    for step, (sps, R) in enumerate(((2, '8e9'), (4, '8e9'), (2, '8e9'), (8, '4e9'))):
+        T.gv(sps=sps, R=env.const(R))
+        fs = sps * float(R)
+        k0 = len(env.events('bessel')) if env.impl == 'model' else 0
+        y = D.LPF(T.electrical_signal(list(xs)), BW) if kind == 'LPF' else D.BPF(T.optical_signal(list(xs)), BW)
+        sos = sg.bessel(N=4, Wn=(2e9 if kind == 'LPF' else 1e9), btype='low', fs=fs, output='sos', norm='mag')
+        ref = sg.sosfiltfilt(sos, numpy.eye(L), axis=0)
+        exp = [sum(xs[j] * env.num(ref[i, j]) for j in range(L) if ref[i, j] != 0.0) for i in range(L)]
+        env.check(f'call {step} (fs = {fs:g}): the filter is designed for the sampling rate now in force, whatever was designed before',
+                  env.And([env.eq(env.re(u), v, scale=30) for u, v in zip(env.items(y.signal), exp)]))
+        if env.impl == 'model':
+            env.check(f'call {step}: a design call is made for this call', len(env.events('bessel')) == k0 + 1)
+
+
 def configs(tier):
     q = tier == 'quick'
     out = []
@@ -255,6 +279,8 @@ def configs(tier):
                     for pol in (1, 2):
                         out.append((f'callsite-BPF-pol{pol}-{"noise" if noise else "clean"}-n{order}', scen_callsite,
                                     dict(kind='BPF', form='os', pol=pol, noise=noise, order=order), {'validate': 1}))
+    for kind in ('LPF', 'BPF'):
+        out.append((f'history-{kind}-gv-reconfigured', scen_history, dict(kind=kind), {'validate': 1}))
     grid = [(0.05, 2), (0.2, 4), (0.44, 4)] if q else [(r, n) for r in (0.02, 0.05, 0.1, 0.2, 0.3, 0.44) for n in (1, 2, 4, 8)]
     for ratio, n in grid:
         L = 28 if n == 8 else 17
